@@ -531,9 +531,10 @@ def r6_builder(ctx):
                 vals[comp_i] = v
                 return Agg("adt", CB, "ConfigurationBuilder", vals)
             if k in ("core::convert::Into::into", "core::convert::From::from") and "dyn mahf::components::Component<" in ((f.get("gargs") or ["", ""])[-1 if nm == "into" else 0]):
-                src = (f.get("gargs") or ["", ""])[0 if nm == "into" else -1]
-                if "dyn mahf::components::Component<" in src:
-                    return args_[0]
+                src = ((f.get("cgargs") or f.get("gargs")) or ["", ""])[0 if nm == "into" else -1]
+                a0v = load(interp, env, args_[0])
+                if "dyn mahf::components::Component<" in src or isinstance(a0v, Sym) or (isinstance(a0v, Agg) and (a0v.name or "").startswith(CF)):
+                    return args_[0]        # a component already (`impl Into<Box<dyn Component>>` instantiated with one): the reflexive conversion
                 outs = interp.call_body(from_impl, [args_[0]])
                 if len(outs) == 1 and outs[0][2] == "return":
                     interp.mstate.clear()
